@@ -143,7 +143,7 @@ def rule_once(ctx, bodies):
           problems.append("a `%s` leaves the result loop before the remaining artifacts get their entry" % kind)
           continue
         if len(sets) == 0:
-          if kind == "continue" and skipped_for_unknown_curve(s, since):
+          if skipped_for_unknown_curve(s, since):
             continue
           problems.append("a path through one iteration records no result (path: %s)" % describe_pc(s, since))
           continue
@@ -206,13 +206,12 @@ def rule_once(ctx, bodies):
 
 
 def skipped_for_unknown_curve(s, since):
-  """The iteration was left by `continue` under `curve is None` (curve drawn from CURVE_FACTORY)."""
-  for c, pol, node in s.pc:
-    for a in sym.cond_atoms(c):
-      if a[0] == "cmp" and a[1] in ("Is", "Eq") and pol and isinstance(a[3], Const) and a[3].v is None:
-        v = as_poly(a[2])
-        if "CURVE_FACTORY" in repr(v):
-          return True
+  """The iteration records nothing because `curve is None` holds on its path (curve drawn from CURVE_FACTORY): read from the path facts, so
+  `if curve is None: continue` and `if curve is not None: <block>` are the same thing."""
+  for fc in s.facts:
+    if fc[0] == "cmp" and fc[1] in ("Is", "Eq") and isinstance(fc[3], Const) and fc[3].v is None and not isinstance(fc[2], Seq):
+      if "CURVE_FACTORY" in repr(as_poly(fc[2])):
+        return True
   return False
 
 
